@@ -81,11 +81,14 @@ Proof.
   destruct (si_inc i) as [z|] eqn:Ei.
   - destruct (delete && negb expose) eqn:Ed.
     + destruct (nth_error_some_lt top (si_pos i) Hp) as [t0 Et0].
+      destruct (nth_error_some_lt text (si_pos i) Ht) as [x0 Ex0].
       destruct (set_at_ok top (si_pos i) true Hp) as [top' [Et Lt]].
-      rewrite Et. cbn [bind]. eexists. eexists. split; [reflexivity|]. cbn [as_undo as_cols]. split; [reflexivity|].
+      destruct (set_at_ok text (si_pos i) (si_width i) Ht) as [text' [Ex Lx]].
+      rewrite Et, Ex. cbn [bind]. eexists. eexists. split; [reflexivity|]. cbn [as_undo as_cols]. split; [reflexivity|].
       split; [|split; [repeat split; cbn; lia|exact Oc]].
       unfold undo_one. cbn [su_ins su_vis su_text su_top c_cnt c_vis c_text c_top c_sub].
-      rewrite Uc, Us. cbn [bind]. rewrite Et0. rewrite (set_at_undo top _ _ t0 top' Et0 Et). reflexivity.
+      rewrite Uc, Us. cbn [bind]. rewrite Et0, Ex0.
+      rewrite (set_at_undo text _ _ x0 text' Ex0 Ex), (set_at_undo top _ _ t0 top' Et0 Et). reflexivity.
     + eexists. eexists. split; [reflexivity|]. cbn [as_undo as_cols]. split; [reflexivity|].
       split; [|split; [repeat split; cbn; lia|exact Oc]].
       unfold undo_one. cbn [su_ins su_vis su_text su_top c_cnt c_vis c_text c_top c_sub].
@@ -160,7 +163,7 @@ Qed.
 Example undo_succ_example :
   let c := mkCols [0; 1; 0] [true; true; true] [Some 1; Some 1; Some 1] [false; false; true] [((9, [1]), Some 2%Z)] in
   (* an increment (id (12,[2])) naming a counter (row 1, stays visible) and a non-counter (row 2) *)
-  let ins := [mkSI (12, [2]) 1 (Some 3%Z) 1 1; mkSI (12, [2]) 2 None 0 1] in
+  let ins := [mkSI (12, [2]) 1 (Some 3%Z) 1 1 (Some 1); mkSI (12, [2]) 2 None 0 1 (Some 1)] in
   exists c' us, add_succ_with_undo c ins = Ok (c', us) /\
     c_vis c' = [true; true; false] /\ c_top c' = [false; true; false] /\ c_cnt c' = [0; 2; 1] /\
     undo_succ c' us = Ok c.
@@ -180,7 +183,7 @@ Theorem add_succ_exposes_invisible_refuted :
 Proof.
   (* row 0: a counter, row 1: a concurrent null, both deleted in the document (not visible) *)
   exists (mkCols [1; 1] [false; false] [None; None] [false; false] [((8, [1]), None); ((12, [1]), None)]).
-  exists [mkSI (20, [3]) 0 (Some 3%Z) 1 1; mkSI (20, [3]) 1 None 1 2].
+  exists [mkSI (20, [3]) 0 (Some 3%Z) 1 1 (Some 1); mkSI (20, [3]) 1 None 1 2 (Some 1)].
   eexists. eexists. split; [repeat constructor; cbn; intuition discriminate|].
   split; [intros i [<-|[<-|[]]]; unfold wf_ins; cbn; repeat split; try reflexivity; lia|].
   split; [vm_compute; reflexivity|]. repeat split.
